@@ -392,49 +392,13 @@ def d13_7(ctx):
     if not attrs:
         ctx.undecided(ckey(frag.key, "nullable-fields"), frag.node, f"no driver use of a None-initialised reply field found ({sorted(none_attrs)})")
         return
-    # (a) producer coupling: status decoded => data sliced
-    su = None
-    for c in frag.mro():
-        m = c.methods.get("_parse_reply")
-        if m is not None and any(isinstance(x, ast.Assign) and any(attr_path(t) == "self.service_status" for t in x.targets) for x in walk(m)):
-            su = (c, m)
-            break
-    if su is None:
-        ctx.undecided(ckey(frag.key, "status-implies-data"), frag.node, "service_status assignment not found in the _parse_reply chain")
-    else:
-        c, m = su
-        g = ctx.cfg(m)
-        S = [n for n in g.nodes if n.kind == "stmt" and isinstance(n.ast, ast.Assign) and any(attr_path(t) == "self.service_status" for t in n.ast.targets)]
-        D = [n for n in g.nodes if n.kind == "stmt" and isinstance(n.ast, ast.Assign) and any(attr_path(t) == "self.data" for t in n.ast.targets)]
-        pure = lambda e, base: isinstance(e, ast.Subscript) and isinstance(e.slice, ast.Slice) and attr_path(e.value) == base and all(b is None or isinstance(ctx.folder.eval(b, c.module), int) for b in (e.slice.lower, e.slice.upper, e.slice.step))  # noqa: E731
-        ok = len(S) == 1 and len(D) == 1 and pure(D[0].ast.value, "self.raw") and any(pure(x, "self.raw") for x in walk(S[0].ast.value)) \
-            and g.must_pass({D[0]}, start=S[0], sinks={g.exit}, avoid_edges=lambda a, b, lab: lab == "exc") is None \
-            and [s for s, lab in S[0].succ if lab != "exc"] == [D[0]]
-        ctx.check(ok, ckey(c.key + "._parse_reply", "status-implies-data"), S[0].ast if S else m, "`self.data = self.raw[..]` directly follows the status decode (a constant slice of the bytes just sliced cannot fail)",
-                  "a reply can carry a decoded service_status while self.data is still None: the data slice does not directly follow the status decode")
-    # (b) every parse path binds the field from the data or records a parse error
-    m = frag.methods.get("_parse_reply")
-    g = ctx.cfg(m)
-    for a in attrs:
-        V = {n for n in g.nodes if n.kind == "stmt" and isinstance(n.ast, ast.Assign) and any(attr_path(t) == f"self.{a}" for t in n.ast.targets)}
-        H = {n for n in g.nodes if n.kind == "handler"}
-        pure_src = all(isinstance(n.ast.value, ast.Subscript) and attr_path(n.ast.value.value) == "self.data" for n in V)
+    # (a) a decoded service status implies the reply data was sliced out, and (b) a valid fragment always carries its value bytes:
+    # decided by constructing the response classes on witness replies cut at every length (D13.9 `cut-replies`: never raises; valid
+    # only with its status word; status decoded => data present; valid fragment => value bytes present) - an earlier form required the
+    # data slice to follow the status decode as the next statement and alarmed when the offsets became named constants / locals
+    from .packets import _emit
 
-        def data_is_none_branch(x, y, lab):
-            if lab == "exc":
-                return True
-            if x.kind == "test" and isinstance(x.ast, ast.Compare) and attr_path(x.ast.left) == "self.data" and isinstance(x.ast.comparators[0], ast.Constant) and x.ast.comparators[0].value is None:
-                return lab == isinstance(x.ast.ops[0], (ast.Is, ast.Eq))
-            return False
-
-        wit = g.must_pass(V | H, sinks={g.exit}, avoid_edges=data_is_none_branch) if V else [g.entry]
-        # the statements of the try body ahead of the binding only slice / compare self.data: with data present they cannot fail
-        calls_before = [x for n in V for t in g.nodes if t.kind == "test" and any(g.branch_dominates(t, br, n) for br in (True, False)) for x in walk(t.ast) if isinstance(x, ast.Call)]
-        ctx.check(bool(V) and wit is None and pure_src and not calls_before, ckey(frag.key + "._parse_reply", f"binds:{a}"), m,
-                  f"every parse path binds self.{a} from self.data (or records a parse error in the handler)",
-                  f"a path through _parse_reply (lines {[p.lineno for p in (wit or []) if p.lineno]}) finishes without binding self.{a} and without a parse error: the reply keeps {a}=None while its "
-                  f"service_status may say 'more data', and LogixDriver._send_read_fragmented then measures None (TypeError out of read())" if (not V or wit is not None) else
-                  f"self.{a} is not a plain slice of self.data / its guards call functions that may fail with data present")
+    _emit(ctx, {"cut-replies", "fragment-response"})
     # (c) consumers
     for mth, n in uses:
         g = ctx.cfg(mth)
